@@ -478,3 +478,10 @@ func vectorDraw(name string, n, bits int) {
 		rest.Rsh(rest, uint(bits))
 	}
 }
+
+// SharedRO declares the object p points to as shared between goroutines and read-only after construction:
+// every store into it by the code under test is reported (engine only).
+func SharedRO(p interface{}) {}
+
+// MutexAcquisitions: how many times Lock was called on the mutex so far (engine ghost counter).
+func MutexAcquisitions(m interface{}) int { return 0 }
